@@ -739,7 +739,11 @@ def docGuards (cfg : Config) (bd : Built) : List String :=
   let d := bd.doc
   let glue := d.lines.flatMap fun l =>
     if l.inBlockComment || l.hasLineComment || l.hasPragma || (trim l.text).isEmpty then []
-    else (lineHazards cfg.style l.toks).map fun (a, b) => s!"glue:{a.name}+{b.name}"
+    else (lineHazards cfg.style l.toks).map fun (a, b) =>
+      -- recorded hazard / pair with an Error token (outside the table) / a pair the table does not know
+      if knownHazard a b cfg.style then s!"glue:{a.name}+{b.name}"
+      else if excludedKind a.kind || excludedKind b.kind then s!"glue-error:{a.name}+{b.name}"
+      else s!"glue-unrecorded:{a.name}+{b.name}"
   let core := runLines cfg {} d.lines
   let panic := if core.isNone then ["indent-underflow-panic"] else []
   let wrapped := match core with
